@@ -55,6 +55,10 @@ type lcase struct {
 	FreezeMs     int    `json:"freezeMs"`  // > 0: the first run's process is SIGSTOPped while the second command runs (resumed when it has exited, at the latest after that long)
 	BVia         string `json:"bVia"`      // the second command's path to the SAME file: "" plain | dirlink | filelink | hardlink
 	BackdateH    int `json:"backdateH"`    // > 0: just before the second command every file under the data dir gets an mtime that many hours in the past
+	// big DAG: that many further steps x0.. (`true <bigPad bytes>`, each depends on the last marked step; no markers): the status
+	// document the first run's endpoint answers with grows to bigExtra * (~500 + 2*bigPad) bytes
+	BigExtra int `json:"bigExtra"`
+	BigPad   int `json:"bigPad"`
 }
 
 type event struct {
@@ -540,6 +544,9 @@ exit 0
 			if i > 1 {
 				fmt.Fprintf(&y, "    depends:\n      - s%d\n", i-1)
 			}
+		}
+		for j := 0; j < c.BigExtra; j++ {
+			fmt.Fprintf(&y, "  - name: x%d\n    command: \"true %s\"\n    depends:\n      - s%d\n", j, strings.Repeat("x", c.BigPad), c.NSteps)
 		}
 		if c.HandMs >= 0 {
 			fmt.Fprintf(&y, "handlerOn:\n  exit:\n    command: sh %s/mark.sh hx\n", home)
